@@ -22,6 +22,20 @@ NODE_TRANSIENT = {
 }
 LOCAL = "analysis-local state, rebuilt or irrelevant after loading (assumption)"
 
+def json_pair_overrides():
+    """mypy.cache.write_json / read_json are a writer/reader pair over JSON values (recursive on the
+    dynamic type of the value); inside class proofs the value travels as ONE token -- the pair's own
+    round trip is an ASSUMED contract (reported in the evidence)"""
+    def write_json(I, args, kw):
+        args[0].put(("json", args[1]))
+        return NONE
+
+    def read_json(I, args, kw):
+        return args[0].take("json")[1]
+
+    return {"mypy.cache:write_json": write_json, "mypy.cache:read_json": read_json}
+
+
 # classes in scope and how they are built
 SIMPLE = {
     "DataclassTransformSpec": dict(construct=True),
@@ -34,18 +48,38 @@ SIMPLE = {
     "OverloadedFuncDef": dict(construct=False),
     "TypeAlias": dict(construct=False),
     "ClassDef": dict(construct=False),
+    "TypeInfo": dict(construct=False, extra_overrides=json_pair_overrides),
 }
 
 UNVERIFIED = {
-    "TypeInfo": "not attempted in this round: ~40 fields, MRO / metaclass / special-alias recomputation in read()",
     "MypyFile": "not attempted: delegates to SymbolTable.write with a prefix and lazy symbol bytes",
     "SymbolTable": "not attempted: writes only symbols that are not module-public cross references; read() keeps lazy bytes",
     "SymbolTableNode": "not attempted: cross-reference decision (fullname != prefix + '.' + name) and lazy node bytes",
     "FileRawData": "not attempted (parser cache, not part of the module interface)",
 }
 
-VIEWS = {}
-TRANSIENT = {}
+def mro_names(I, o):
+    """[c.fullname for c in o.mro] as the lock-step image of the mro list"""
+    cd = I.codec
+    coll = cd.as_collection(I.getattr(o, "mro"), None)
+    k, elem, n = cd.generic_of(coll)
+    return cd.lift(coll, elem, I.getattr(elem, "fullname"))
+
+
+VIEWS = {
+    "TypeInfo": {"_mro_refs": mro_names, "_fullname": lambda I, o: I.getattr(o, "fullname")},
+}
+TRANSIENT = {
+    "TypeInfo": {
+        "mro": "re-linked by fixup from _mro_refs (the names of the written mro: view slot _mro_refs)",
+        "assuming": "subtype-check recursion stack (analysis-local)", "assuming_proper": "same", "inferring": "inference recursion stack (analysis-local)",
+        "bad_mro": "set while the class is analysed; a class with a bad MRO has a blocking error and is not cached",
+        "has_type_var_tuple_type": "recomputed by add_type_vars() in __init__ from defn.type_vars", "type_var_tuple_prefix": "same", "type_var_tuple_suffix": "same",
+        "special_alias": "recomputed from tuple_type / typeddict_type by fixup", "type_object_type": "memo of type_object_type()",
+        "typeddict_data": "semantic-analysis deferral state", "default_depends": "semantic-analysis deferral state",
+        "is_type_check_only": "read by stubtest only, which does not load modules from the cache (assumption)",
+    },
+}
 FT = {
     ("FuncItem", "arg_names"): TLList(TOpt(TStr())), ("FuncItem", "arg_kinds"): TLList(TObj(N.ArgKind)),
     ("FuncDef", "arg_names"): TLList(TOpt(TStr())), ("FuncDef", "arg_kinds"): TLList(TObj(N.ArgKind)),
@@ -116,6 +150,9 @@ def targets(tier):
         tr = dict(NODE_TRANSIENT)
         tr.update(auto_transient(cls))
         tr.update(TRANSIENT.get(cls.__name__, {}))
+        for k in VIEWS.get(cls.__name__, {}):
+            tr.pop(k, None)  # a slot with a pinned view is compared, never transient
         ts.append(CodecTarget(f"codec.nodes.{cls.__name__}", cls, view=VIEWS.get(cls.__name__), transient=tr, field_types=FT,
-                              nested_readers=NESTED_READERS, construct=opts.get("construct", False), requires=opts.get("requires")))
+                              nested_readers=NESTED_READERS, construct=opts.get("construct", False), requires=opts.get("requires"),
+                              extra_overrides=opts["extra_overrides"]() if opts.get("extra_overrides") else None))
     return ts
